@@ -48,6 +48,18 @@ Proof.
   apply (Hdep i (Hin i Hi)); [|exact W]. intros u Hu. apply (Hag i u Hi Hu).
 Qed.
 
+(* any number of edges, each run in its own order of the blocks: the orders never matter *)
+Theorem ff_many_edges os1 os2 :
+  Forall2 (fun s t => NoDup s /\ Permutation s t /\ incl s ffs) os1 os2 ->
+  forall e1 e2, eqe e1 e2 ->
+  eqe (fold_left (fun e s => run_list B s e) os1 e1) (fold_left (fun e s => run_list B s e) os2 e2).
+Proof.
+  induction 1 as [|s t os1 os2 [Hnd [Hp Hin]] _ IH]; intros e1 e2 He; cbn [fold_left]; [exact He|].
+  apply IH. intros v.
+  rewrite (ff_perm_indep B ffs Hframe Hdep Hsw Hff s t Hnd Hp Hin e1 v).
+  assert (Ht : incl t ffs) by (intros x Hx; apply Hin; apply (Permutation_in x (Permutation_sym Hp) Hx)).
+  apply (run_list_ext B ffs Hframe Hdep t Ht e1 e2 He v).
+Qed.
 End FFEdge.
 
 (* non-vacuity of the section hypotheses: the register swap  a <<= b ; b <<= a  as two update_ff blocks.
